@@ -548,7 +548,7 @@ func clipAll(bs [][]byte) [][]byte {
 }
 
 func init() {
-	register(&Scenario{Name: "hostile-peers", Prop: "C16", Horizon: time.Hour, Weight: 15, Run: c16Run})
+	register(&Scenario{Name: "hostile-peers", Prop: "C16", Horizon: time.Hour, Weight: 47, Run: c16Run})
 }
 
 // c16Real: hostile peers against the real tcp and ws transports on loopback
@@ -566,7 +566,7 @@ func c16Real(w *W) {
 	s := w.Sock(kind)
 	defer s.Close()
 	mustSet(w, s, mangos.OptionMaxRecvSize, limit)
-	mustSet(w, s, mangos.OptionRecvDeadline, 300*time.Millisecond)
+	mustSet(w, s, mangos.OptionRecvDeadline, 80*time.Millisecond)
 	if kind == "sub" {
 		mustSet(w, s, mangos.OptionSubscribe, "")
 	}
